@@ -112,8 +112,8 @@ def step (f : Fns α) (c : Cfg α) (s : State α) (v : α) : State α :=
   let newMean := List.zipWith (fun m pn => m / pn)
       (List.zipWith (fun mu p => mu * p + v / c.dataVar) s.means s.precs) newPrec
   let means := (s.means.headD Num.zero) :: newMean
-  -- predictions: weights = exp(previous row), parameters after the update
-  let probs := s.row.map Num.exp
+  -- predictions (step 9): weights = exp(current row), parameters after the update
+  let probs := row.map Num.exp
   let predMean := sumList (List.zipWith (· * ·) probs means)
   let predVar := sumList (List.zipWith (· * ·) probs (varParams c precs))
   let drift := if c.minN ≤ n then argmax row != n else s.drift
